@@ -122,7 +122,7 @@ def run_3d(case, ctx):
                 if not any(b[0] == 'fit' and kk != 0. for b, kk in zip(bands, k)):
                     labels.add('singular_source_skipped')
                     continue
-                refs = [[of.Ref3D(bands, grid['flux'][m], grid['apertures'], case['theta'], k, av_range[0], av_range[1], g)
+                refs = [[of.Ref3D(bands, gen.tables_3d(case, m)[0], gen.tables_3d(case, m)[1], case['theta'], k, av_range[0], av_range[1], g)
                          for m in range(len(names))] for g in cand]
                 with must_succeed('Fitter.fit'), quiet():
                     info = fitter.fit(gen.source_object(src))
